@@ -1048,6 +1048,7 @@ def build_unit(overlay_path, base_root, repo_root, out_path, subst_tables=None, 
             cur = []
         else:
             cur = transform(open(curp).read(), counts, select)
+            cur = inline_new_helpers(cur, base, counts)
         missing = classify(region, base)
         if missing:
             for k in missing[:5]:
@@ -1113,6 +1114,75 @@ def build_unit(overlay_path, base_root, repo_root, out_path, subst_tables=None, 
     return {'overlay': name, 'out': out_path, 'files': files, 'transform_counts': dict(counts),
             'problems': problems, 'origin': origin, 'lines': out, 'spinoff_attrs': n_spin, 'new_readonly_fns_dropped': dropped_new,
             'fields_renamed': fren, 'annotation_lines_field_renamed': fields_renamed}
+
+
+def inline_new_helpers(cur, base, counts):
+    """T23: a private helper that the base text does not have, that returns nothing, has no `mut` parameter, no generics and no
+    `return`, and is called exactly once - as the statement `self.helper(a, b, c);` whose arguments are exactly the helper's
+    parameter names - is put back at its call site (the inverse of an extract-method refactoring; the inlined text is the same
+    program).  Anything else is left alone."""
+    base_names = set(_fn_name(base[lo][0]) for lo, hi in _fn_spans(base))
+    for _ in range(4):
+        spans = _fn_spans(cur)
+        done = False
+        for lo, hi in spans:
+            name = _fn_name(cur[lo][0])
+            if not name or name in base_names:
+                continue
+            # header: from `fn` to the line before the body's `{`
+            ind = cur[lo][0][:len(cur[lo][0]) - len(cur[lo][0].lstrip())]
+            b0 = None
+            for q in range(lo, hi + 1):
+                if cur[q][0].rstrip() == ind + '{':
+                    b0 = q
+                    break
+            if b0 is None or cur[hi][0].rstrip() != ind + '}':
+                continue
+            header = ' '.join(t.strip() for t, _ in cur[lo:b0])
+            m = re.match(r'^(?:pub(?:\([a-z]+\))? )?fn \w+\((.*)\)\s*$', header)
+            if not m or '<' in header.split('(')[0]:
+                continue
+            params = [x.strip() for x in _split_top_commas(m.group(1)) if x.strip()]
+            if not params or params[0] not in ('&mut self', '&self'):
+                continue
+            pnames = []
+            ok = True
+            for x in params[1:]:
+                pm = re.match(r'^([a-z_]\w*)\s*:', x)
+                if not pm:
+                    ok = False
+                    break
+                pnames.append(pm.group(1))
+            body = cur[b0 + 1:hi]
+            if not ok or any(re.search(r'\breturn\b', t.split('//')[0]) for t, _ in body):
+                continue
+            calls = [q for q in range(len(cur)) if not (lo <= q <= hi) and re.search(r'\b%s\s*\(' % re.escape(name), cur[q][0].split('//')[0])]
+            if len(calls) != 1:
+                continue
+            c = calls[0]
+            cm = re.match(r'^(\s*)self\.%s\((.*)\);\s*$' % re.escape(name), cur[c][0])
+            if not cm or [x.strip() for x in _split_top_commas(cm.group(2)) if x.strip()] != pnames:
+                continue
+            shift = len(cm.group(1)) - (len(ind) + 4)
+            new_body = []
+            for t, no in body:
+                if shift >= 0:
+                    new_body.append(((' ' * shift + t) if t.strip() else t, no))
+                else:
+                    new_body.append((t[-shift:] if t[:-shift].strip() == '' else t, no))
+            a = lo
+            while a > 0 and re.match(r'^\s*(#\[|///)', cur[a - 1][0]):
+                a -= 1
+            if c < a:
+                cur = cur[:c] + new_body + cur[c + 1:a] + cur[hi + 1:]
+            else:
+                cur = cur[:a] + cur[hi + 1:c] + new_body + cur[c + 1:]
+            counts.bump('T23_new_helper_inlined')
+            done = True
+            break
+        if not done:
+            break
+    return cur
 
 
 def drop_new_readonly_fns(out, origin, base_root):
